@@ -26,12 +26,23 @@ func smStep(sm protocol.StateMap, st protocol.State, msg protocol.Message) (prot
 		if tr.MsgType != msg.Type() {
 			continue
 		}
-		if tr.MatchFunc != nil && !tr.MatchFunc(nil, msg) {
+		if tr.MatchFunc != nil && !safeMatch(tr.MatchFunc, msg) {
 			continue
 		}
 		return tr.NewState, true
 	}
 	return protocol.State{}, false
+}
+
+// safeMatch evaluates a declared MatchFunc; a message of another Go type than
+// the function expects (an opaque harness message with that wire tag) does not match.
+func safeMatch(f protocol.StateTransitionMatchFunc, msg protocol.Message) (ok bool) {
+	defer func() {
+		if recover() != nil {
+			ok = false
+		}
+	}()
+	return f(nil, msg)
 }
 
 func peerAgency(sm protocol.StateMap, st protocol.State, localRole protocol.ProtocolRole) bool {
@@ -48,7 +59,7 @@ func localAgency(sm protocol.StateMap, st protocol.State, localRole protocol.Pro
 func msgForTransition(sp *specProto, tr protocol.StateTransition, tag uint32) protocol.Message {
 	for v := 0; v < 2; v++ {
 		m := mkMsg(sp, specTrans{Msg: tr.MsgType, Variant: v}, tag, 12+int(tag%40))
-		if tr.MatchFunc == nil || tr.MatchFunc(nil, m) {
+		if tr.MatchFunc == nil || safeMatch(tr.MatchFunc, m) {
 			return m
 		}
 	}
@@ -166,7 +177,7 @@ func advRecvSetup(s *rt.Sim, tier string) func() {
 				if len(sm[st].Transitions) > 0 {
 					msg = msgForTransition(sp, sm[st].Transitions[pick("op", len(sm[st].Transitions))], tag)
 				} else {
-					msg = mkRaw(uint8(pick("op", 12)), tag, 12)
+					msg = mkMsg(sp, specTrans{Msg: uint8(pick("op", 12))}, tag, 12)
 				}
 			}
 			if i > 0 && pick("op", 10) == 9 {
